@@ -111,17 +111,17 @@ type caseCtx struct {
 	zc    zipCache
 	limit int
 
-	N      int64         // lower calls of run A (after construction)
-	logA   []inject.Call // run A's calls, index 0 = first call after construction
-	labels []string
-	opOf   []int // op index of every call of run A
+	N        int64         // lower calls of run A (after construction)
+	logA     []inject.Call // run A's calls, index 0 = first call after construction
+	labels   []string
+	opOf     []int // op index of every call of run A
 	opStartA []int64
-	writes int
-	zipsA  int
-	mu     sync.Mutex
-	states map[string]*stateEntry
-	order  []*stateEntry
-	failed bool
+	writes   int
+	zipsA    int
+	mu       sync.Mutex
+	states   map[string]*stateEntry
+	order    []*stateEntry
+	failed   bool
 }
 
 type execResult struct {
